@@ -588,7 +588,11 @@ class ReverseWeighting(WeightingModel):
             self.subscorer = subscorer
 
         def supports_block_quality(self):
-            return self.subscorer.supports_block_quality()
+            # The negated quality bounds of the wrapped scorer are *lower*
+            # bounds of the reversed scores (the upper bounds would need the
+            # minimum weight and maximum length, which are not available), so
+            # quality optimizations cannot be used with reversed scoring
+            return False
 
         def score(self, matcher):
             return 0 - self.subscorer.score(matcher)
